@@ -51,11 +51,11 @@ func TestVerifReplay(t *testing.T) {
 	e := &Ecosystem{}
 	var cases []c05case
 	add := func(c c05case) { cases = append(cases, c) }
-	grid := []int{0, 1, 2, 9}
+	grid := []int{GRID}
 	_ = grid
 	CASES
 	var probes []c05probe
-	pg := []int{0, 1, 2, 3, 4, 9, 10, 11}
+	pg := []int{PROBEGRID}
 	for _, x := range pg {
 		for _, y := range pg {
 			for _, z := range pg {
@@ -259,7 +259,7 @@ var shorthandEcos = []shorthandEco{
 	}}}
 	add(c05case{construct: "wildcard/*", rng: "*"})
 `},
-	{pkg: "composer", probeFmt: "%d.%d.%d", cases: `
+	{pkg: "composer", probeFmt: "%d.%d.%d", post: []string{".1", ".5", ".9"}, cases: `
 	for _, X := range grid { for _, Y := range grid { for _, Z := range grid {
 		b := c05v(X, Y, Z)
 		hiC := c05v(0, 0, Z+1)
@@ -269,6 +269,7 @@ var shorthandEcos = []shorthandEco{
 		hiT := c05v(X, Y+1, 0)
 		hiM := c05v(X+1, 0, 0)
 		add(c05case{construct: "caret/X.Y.Z", rng: "^" + b, lo: b, loIncl: true, hi: hiC})
+		add(c05case{construct: "caret/X.Y.Z.W", rng: "^" + b + ".5", lo: b + ".5", loIncl: true, hi: hiC})
 		add(c05case{construct: "tilde/X.Y.Z", rng: "~" + b, lo: b, loIncl: true, hi: hiT})
 		if Z == 0 {
 			if X > 0 || Y > 0 { add(c05case{construct: "caret/X.Y", rng: fmt.Sprintf("^%d.%d", X, Y), lo: c05v(X, Y, 0), loIncl: true, hi: hiC2}) } // ^0.0 is not in the composer documentation
@@ -397,6 +398,13 @@ func (s shorthandEco) source() string {
 	src = strings.ReplaceAll(src, "PRESUFFIXES", quoteList(s.pre))
 	src = strings.ReplaceAll(src, "POSTSUFFIXES", quoteList(s.post))
 	src = strings.Replace(src, "\tCASES\n", s.cases, 1)
+	if harnessThorough {
+		src = strings.Replace(src, "GRID", "0, 1, 2, 3, 9, 10, 99", 1)
+		src = strings.Replace(src, "PROBEGRID", "0, 1, 2, 3, 4, 5, 9, 10, 11, 12, 99, 100, 101", 1)
+	} else {
+		src = strings.Replace(src, "GRID", "0, 1, 2, 9", 1)
+		src = strings.Replace(src, "PROBEGRID", "0, 1, 2, 3, 4, 9, 10, 11", 1)
+	}
 	return src
 }
 
@@ -477,7 +485,8 @@ func (w *World) shorthandVCs() []VC {
 			c := c
 			vcs = append(vcs, VC{Name: s.pkg + ".(*Ecosystem).NewVersionRange.shorthand[" + c + "].bounded", Prop: "C05", Kind: "bounded.api", Fn: s.pkg + ".(*Ecosystem).NewVersionRange", Pos: w.pos(fn.Pos()),
 				Clause:  s.pkg + " " + c + ": NewVersionRange(text).Contains(v) is true exactly for the v inside the documented interval",
-				Bounded: "bases X,Y,Z in {0,1,2,9}; probes x.y.z with x,y,z in {0,1,2,3,4,9,10,11} plus boundary pre-/post-release forms",
+				Bounded: map[bool]string{false: "bases X,Y,Z in {0,1,2,9}; probes x.y.z with x,y,z in {0,1,2,3,4,9,10,11} plus boundary pre-/post-release forms",
+					true: "bases X,Y,Z in {0,1,2,3,9,10,99}; probes x.y.z with x,y,z in {0,1,2,3,4,5,9,10,11,12,99,100,101} plus boundary pre-/post-release forms"}[harnessThorough],
 				Run: func() SolveResult {
 					r := runShorthand(w, s.pkg)
 					res := SolveResult{Solver: "enumeration(go test -overlay)", Seconds: r.secs / float64(len(s.constructs()))}
